@@ -87,6 +87,10 @@ Definition judge_exact (c : c05) : nat :=
 Definition show_exact (c : c05) :=
   let U := e_U c in opt (table_of (cost_matrix (e_s c) (positions U (e_D c)))) (seq 0 (length U)).
 
+(** a sequence of calls on ONE algorithm object (no state may leak from a call to the next): each call judged on its own *)
+Definition judge_exact_seq (l : list c05) : nat := fold_left Nat.lor (map judge_exact l) 0%nat.
+Definition show_exact_seq (l : list c05) := map show_exact l.
+
 (** ParFront: the library's partition against the merge loop run on the library's own SCC order, and
     against every optimal consensus (enumerated through [assigns]) *)
 Record c07 := mkC07 {
